@@ -108,7 +108,7 @@ fn judge_impl(case: &Case, strict: bool) -> Outcome {
                     refrule = Some(reference::load_rule_text(text, false).map_err(|_| ()));
                 }
                 if let Some(Ok(rr)) = &refrule {
-                    let ev = Evaluator::new(rr, EvalOpts { relaxed: true, shake: sw.shake, matrix: sw.matrix, engine_exact: true });
+                    let ev = Evaluator::new(rr, EvalOpts { relaxed: true, shake: sw.shake, matrix: sw.matrix, engine_exact: true, wide: false });
                     let set = ev.eval(d);
                     if verdict_admissible(set, got) {
                         known = Some("K1K2".into());
